@@ -332,6 +332,14 @@ def dot_worker(job):
                     nodes.append(treegen.Node(top + "/" + nm, kind))
                     if kind == "d" and rng.random() < 0.6:
                         nodes.append(treegen.Node(top + "/" + nm + "/in", "f"))
+            if rng.random() < 0.6:
+                # symbolic links that point at find's own working directory (relative, absolute, through '.'): they are entries like
+                # any other and are removed when matched - only the working directory itself cannot be
+                for top, tgt in rng.sample([("other", "../here"), ("third", os.path.join(sb, "here")), ("here", "."), ("other", "../here/."),
+                                            ("here", "../here")], rng.randint(1, 3)):
+                    if all(n.path != top + "/tohere" for n in nodes):
+                        nodes.append(treegen.Node(top + "/tohere", "l", target=tgt))
+                st.inc("runs_with_links_to_the_working_directory")
             os.makedirs(sb)
             treegen.build(sb, nodes)
             roots = rng.choice([[".", "../other"], ["../other", "."], [".", "../other", "../third"], ["../third", ".", "../other"], ["."],
